@@ -390,7 +390,7 @@ func ruleW2b(r *Run) {
 // the wire and fill it with copy() from the method's parameters: with more arguments than
 // parameters the tail stays nil.
 func init() {
-	register("W9", "an element of a []reflect.Type that was allocated with a wire-controlled length and filled by copy() (so that its tail can be nil) is used only where nil is acceptable: under a dominating != nil test, or passed to a repository function that itself tests the parameter against nil (Decoder.Read, io.Convert); it is never handed to reflect/reflect2 constructors or dereferenced unchecked", 3, ruleW9)
+	register("W9", "an element of a []reflect.Type that was allocated with a wire-controlled length and filled by copy() (so that its tail can be nil) is used only where nil is acceptable: under a dominating != nil test, or passed to a repository function that itself tests the parameter against nil (Decoder.Read, io.Convert); it is never handed to reflect/reflect2 constructors or dereferenced unchecked", 2, ruleW9)
 }
 
 func ruleW9(r *Run) {
